@@ -76,6 +76,7 @@ int main(int argc, char **argv) {
         Stats &st = stats(); st.count("cases"); st.count("class:solution=" + s.name); st.count(std::string("class:scalar=") + (prec ? "long double" : "double")); st.count(std::string("class:mode=") + (mode == 0 ? "mixed" : mode == 1 ? "sweep" : "corner"));
         bool logscaled = false; for (auto &kv : c.params) if (kv.second != 0 && (fabsl(kv.second) < 0.05L || fabsl(kv.second) > 50.0L)) logscaled = true; if (logscaled) st.count("class:has_log_scaled_parameter");
         if (nontrivial(c)) { st.count("class:nontrivial"); st.distinct.insert(case_hash(c)); }
+        write_file(g_faildir + "/current.case", case_to_text(c, g_prop, ""));   // survives a crash of the library under test
         std::string bad = judge(s, c, sub, true);
         if (bad.empty() && c09 && prec == 0) { // common-input sub-stream: the same double inputs through the long double interface
           NumCase c2 = c; c2.prec = 1; st.count("class:common_input_pair"); bad = judge(s, c2, sub + "+common", true); }
